@@ -47,6 +47,10 @@ class Prop(Bip32Prop):
         for iv, tgt in ([[0, 6], 4], [[H - 3, H], H - 1], [[5, 0, -1], 2], [[0, 9, 3], 6]):
             st = self.start_prv(rng, self.rand_scalar(rng, "rand"))
             cases.append({"kind": "PubPriv", "start": st, "path": [tgt], "via": {"gen": iv}, "note": "via generate_children%r" % (iv,)})
+        # the path handed to derive_path as a tuple / one-shot iterable
+        for form, path in (("iter", [0, 5]), ("gen", [3]), ("map", [1, 2, 3]), ("tuple", [7, 0])):
+            st = self.start_prv(rng, self.rand_scalar(rng, "rand"))
+            cases.append({"kind": "PubPriv", "start": st, "path": path, "via": {"form": form}, "note": "path as " + form})
         # refusal of hardened indexes from public-only data
         for i in [H, H + 1, 2 ** 32 - 1, rng.randrange(H, 2 ** 32)]:
             k = self.rand_scalar(rng, "rand")
